@@ -32,6 +32,10 @@ REPO = os.environ.get("FMC_REPO", "/repo")
 FINDINGS_FILE = os.path.join(VERIF, "KNOWN_FINDINGS.txt")
 EVIDENCE_DIR = os.path.join(VERIF, "evidence")
 REPLAY_DIR = os.path.join(VERIF, "replays")
+if os.path.realpath(REPO) != "/repo":
+    # a scratch tree (seeded change, refactoring): never overwrite the evidence of /repo itself
+    EVIDENCE_DIR = os.path.join("/tmp", "fmc_scratch_evidence", os.path.basename(os.path.realpath(REPO)))
+    REPLAY_DIR = os.path.join("/tmp", "fmc_scratch_replays", os.path.basename(os.path.realpath(REPO)))
 NPROC = int(os.environ.get("FMC_NPROC", "16"))
 
 
